@@ -31,6 +31,8 @@ def run_tlc():
         proc = subprocess.run(
             [tlc, "-workers", "1", "-noGenerateSpecTE", "-metadir", os.path.join(work, "meta"), "-deadlock", "-dump", "dot,actionlabels", dump, "OtaSession"],
             cwd=work, capture_output=True, text=True, timeout=600,
+            # TLC's JVM leaves a tlc-<n> directory in java.io.tmpdir: keep it inside the work directory removed below
+            env=dict(os.environ, JAVA_TOOL_OPTIONS=(os.environ.get("JAVA_TOOL_OPTIONS", "") + f" -Djava.io.tmpdir={work}").strip()),
         )
         out = proc.stdout + proc.stderr
         if "No error has been found" not in out:
